@@ -271,14 +271,16 @@ class Composite(LexicalParent[Node], HasCreator, Node, ABC):
                 # the all-of triggers had collected by then belongs to that run
                 node.signals.input.accumulate_and_run.reset()
             for node in self.starting_nodes:
+                n_started = len(self.provenance_by_execution)
                 try:
                     node.run()
                 except Exception as e:
                     # Treat starting nodes like any other child: collect the error and
                     # keep going, so that children already running elsewhere are not
                     # abandoned and `failed` signals still get processed
-                    errors[node.full_label] = e
-                    accounted_for.add(node.label)
+                    self._collect_child_error(
+                        errors, accounted_for, node, e, n_started
+                    )
 
         self._run_while_children_or_signals_exist(errors, accounted_for)
 
@@ -294,11 +296,13 @@ class Composite(LexicalParent[Node], HasCreator, Node, ABC):
         while len(self.running_children) > 0 or len(self.signal_queue) > 0:
             try:
                 firing, receiving = self.signal_queue.pop(0)
+                n_started = len(self.provenance_by_execution)
                 try:
                     receiving(firing)
                 except Exception as e:
-                    errors[receiving.full_label] = e
-                    accounted_for.add(receiving.owner.label)
+                    self._collect_child_error(
+                        errors, accounted_for, receiving.owner, e, n_started
+                    )
             except IndexError:
                 # The signal queue is empty, but there is still someone running...
                 sleep(self._child_sleep_interval)
@@ -326,6 +330,26 @@ class Composite(LexicalParent[Node], HasCreator, Node, ABC):
             raise FailedChildError(
                 f"{self.full_label} encountered multiple errors in children: {errors}"
             ) from None
+
+    def _collect_child_error(
+        self,
+        errors: dict[str, Exception],
+        accounted_for: set[str],
+        child: Node,
+        error: Exception,
+        n_started_before: int,
+    ) -> None:
+        """
+        One error per child. What a child's own run raised is never displaced by a
+        later refusal to run it again (it is failed, or still running), while a refusal
+        gives way to the error of an actual run.
+        """
+        refused = len(self.provenance_by_execution) == n_started_before
+        if not refused:
+            errors[child.full_label] = error
+            accounted_for.add(child.label)
+        elif child.full_label not in errors:
+            errors[child.full_label] = error
 
     def register_child_starting(self, child: Node) -> None:
         """
